@@ -541,6 +541,8 @@ def run_cli(argv, files):
             pybufrkit.main()
         except SystemExit as e:
             exc = {'type': 'SystemExit', 'lib': False, 'site': None, 'msg': str(e.code)}
+        except core.StepBudgetExceeded:
+            raise
         except BaseException as e:
             exc = exc_info(e)
         out, err = sys.stdout.getvalue(), sys.stderr.getvalue()
@@ -555,6 +557,8 @@ def run_cli(argv, files):
 
 
 def execute(plan):
+    from sim.observe import install_step_budget
+    install_step_budget()
     fam = plan['family']
     if fam in ('c11', 'c12', 'c17-stream'):
         return exec_stream(plan)
@@ -600,7 +604,8 @@ def enum_subplans(plan):
 
 def exec_stream(plan):
     from pybufrkit.decoder import Decoder, generate_bufr_message
-    from sim.observe import digest_message, exc_info, quiet_std
+    from sim.observe import digest_message, exc_info, quiet_std, install_step_budget
+    install_step_budget()
     lay = finalize(plan)
     stream = lay['stream']
     kn = plan['knobs']
@@ -660,7 +665,9 @@ def exec_trunc(plan):
     types = {}
     decoded = []
     info_ok = 0
+    from sim.observe import reset_step_budget
     for c in plan['cuts']:
+        reset_step_budget()          # the step budget is per decode here
         try:
             dec.process(raw[:c])
             decoded.append(c)
@@ -754,7 +761,9 @@ def exec_c17_multi(plan):
     dec = Decoder()
     q = MetadataQuerent(MetadataExprParser())
     out = []
+    from sim.observe import reset_step_budget
     for it in plan['items']:
+        reset_step_budget()
         raw = bytes.fromhex(it['hex'])
         dmg = bufrgen.apply_fault(raw, it['fault']) if it.get('fault') else raw
         r = {'exc': None, 'q': [], 'sections': None}
@@ -999,7 +1008,7 @@ def oracle(plan, tr):
     if fam == 'c12-enum':
         out = []
         for sub, st in zip(enum_subplans(plan), tr['subs']):
-            if sub is None or st is None:
+            if sub is None or st is None or st.get('budget_exceeded'):
                 continue
             for sig in oracle_stream(sub, st, 'C12'):
                 sig = dict(sig, enum=True)
